@@ -90,6 +90,7 @@ def c03(res: CheckResult) -> None:
     res.assumptions = COMMON_ASSUMPTIONS
     call_unit(res, "invariants around operations (member kinds x check_on x operation sequences x state flips)",
               list(F.fam_inv(res.tier, rng)), ic, require_outcomes=["ret", "Violation"])
+    call_unit(res, "async and sync public methods mixed; operation sequences", list(F.fam_inv_async(res.tier, rng)), ic)
     call_unit(res, "subclass constructors calling the base constructor; members added by the subclass",
               list(F.fam_inv_sub(res.tier, rng)), ic, require_outcomes=["ret", "Violation"])
 
@@ -117,3 +118,23 @@ def c12(res: CheckResult) -> None:
               list(F.fam_conc(res.tier, rng, False)), ic, "thread", nsim)
     conc_unit(res, "asyncio-like tasks: 2-3 concurrent async calls x context modes x all suspension interleavings",
               list(F.fam_conc(res.tier, rng, True)), ic, "async", nsim)
+
+
+@check("C13")
+def c13(res: CheckResult) -> None:
+    from icv.checks_call import pair_unit
+    ic = C.load_icontract()
+    rng = random.Random(res.seed)
+    res.assumptions = COMMON_ASSUMPTIONS
+    call_unit(res, "async/sync conditions and captures on sync/async callables (all placements)",
+              list(F.fam_async_placements(res.tier, rng)), ic, require_outcomes=["ret", "ValueError", "ErrFact"])
+    call_unit(res, "async and sync public methods of a class with invariants; operation sequences",
+              list(F.fam_inv_async(res.tier, rng)), ic)
+    pairs = [p for p in F.fam_pre(res.tier, rng) if not any(f["async"] for f in p["fn"])]
+    pairs += [p for p in F.fam_post(res.tier, rng) if not any(f["async"] for f in p["fn"])]
+    pairs += [p for p in F.fam_order(res.tier, rng) if not any(f["async"] for f in p["fn"])]
+    pairs += [p for p in F.fam_err(res.tier, rng) if not any(f["async"] for f in p["fn"])]
+    if res.tier == "quick":
+        rng.shuffle(pairs)
+        pairs = pairs[:2500]
+    pair_unit(res, "programs of C01/C02/C09/C16 rendered with def and with async def", pairs, ic)
